@@ -5,7 +5,7 @@ import numpy as np
 from hypothesis import strategies as st
 
 import nifty.cl as ift
-from vlib import Discard, Violation, close, require
+from vlib import Discard
 from vlib import nx
 from vlib import strat as S
 
@@ -33,7 +33,6 @@ def interp_recipes(draw, tier):
             rem = max(1, rem // n)
         rs.append(["RG", shp, [draw(C.DIST) for _ in shp], draw(st.booleans())])
     npts = draw(st.integers(1, 5))
-    tot = nsp * ndim
     # positions in units of 1/8 pixel, from one period below to two periods above the grid
     shape = [n for r in rs for n in r[1]]
     pts = [[draw(st.integers(-8 * n, 16 * n)) / 8.0 for _ in range(npts)] for n in shape]
@@ -94,7 +93,12 @@ def los_recipes(draw, tier):
     for i in range(nlos):
         if all(starts[a][i] == ends[a][i] for a in range(ndim)):
             ends[0][i] += 0.375
-    return {"dom": r, "starts": starts, "ends": ends, "as_tuple": draw(st.booleans()), "seed": draw(SEED)}
+    rec = {"dom": r, "starts": starts, "ends": ends, "as_tuple": draw(st.booleans()), "seed": draw(SEED)}
+    if draw(st.integers(0, 2)) == 0:
+        # parallax-type length uncertainty: sigma_i = frac_i / (L_i * truncation) keeps 1/L - trunc*sigma > 0
+        rec["sig_frac"] = [draw(st.sampled_from([0.0, 0.25, 0.5, 0.75])) for _ in range(nlos)]
+        rec["truncation"] = draw(st.sampled_from([None, 3.0, 2.0, 1.0]))
+    return rec
 
 
 def los_check(rec):
@@ -109,13 +113,29 @@ def los_check(rec):
     starts = (ps - 0.5) * dist[:, None]
     ends = (pe - 0.5) * dist[:, None]
     arg = ift.DomainTuple.make(space) if rec["as_tuple"] else space
-    op = ift.LOSResponse(arg, starts, ends)
     nlos = ps.shape[1]
+    sig = None
+    if "sig_frac" in rec:
+        from scipy.special import erfc
+        trunc = 3.0 if rec["truncation"] is None else rec["truncation"]
+        Ls = np.linalg.norm(ends - starts, axis=0)
+        sig = np.array(rec["sig_frac"]) / (Ls * trunc)
+        kw = {} if rec["truncation"] is None else {"truncation": rec["truncation"]}
+        op = ift.LOSResponse(arg, starts, ends, sigmas=sig, **kw)
+    else:
+        op = ift.LOSResponse(arg, starts, ends)
     W = np.zeros((nlos,) + tuple(shp))
     maxlen = 0.0
     for i in range(nlos):
         a, b = ps[:, i], pe[:, i]
         L = float(np.linalg.norm((b - a) * dist))
+        L0 = L
+        if sig is not None:
+            # the end point is uncertain: 1/length ~ N(1/L0, sigma); integrate up to the truncated maximal
+            # length hi and weight every cell by P(length > distance of the cell's mid point)
+            lo_d, hi_d = 1.0 / (1.0 / L0 + trunc * sig[i]), 1.0 / (1.0 / L0 - trunc * sig[i])
+            b = a + (b - a) * (hi_d / L0)
+            L = hi_d
         maxlen = max(maxlen, L)
         ts = {0.0, 1.0}
         for d in range(len(shp)):
@@ -130,7 +150,12 @@ def los_check(rec):
             mid = a + 0.5 * (t0 + t1) * (b - a)
             cell = np.floor(mid).astype(int)
             if np.all(cell >= 0) and np.all(cell < np.array(shp)):
-                W[(i,) + tuple(cell)] += (t1 - t0) * L
+                w = (t1 - t0) * L
+                if sig is not None and sig[i] > 0:
+                    md = 0.5 * (t0 + t1) * L
+                    if md > lo_d:
+                        w *= 0.5 * erfc(((-1.0 / md + 1.0 / L0) / sig[i]) / np.sqrt(2.0))
+                W[(i,) + tuple(cell)] += w
 
     def ref(x):
         return np.tensordot(W, x, axes=(list(range(1, W.ndim)), list(range(x.ndim))))
@@ -139,7 +164,7 @@ def los_check(rec):
     # weights are stored in single precision and the traversal is shortened by 1e-7 at both ends
     cls = C.verify(op, ref, rec["seed"], exp_dom=ift.DomainTuple.make(space), exp_tgt=tgt, exp_cap=3,
                    tol=2e-6, scale=max(1.0, maxlen))
-    cls += [f"ndim_{len(shp)}"]
+    cls += [f"ndim_{len(shp)}", "sigmas" if sig is not None else "no_sigmas"]
     inside = lambda p: bool(np.all(p >= 0) and np.all(p < np.array(shp)))
     for i in range(nlos):
         cls.append("los_inside" if inside(ps[:, i]) and inside(pe[:, i]) else "los_leaves_grid")
